@@ -1029,6 +1029,7 @@ def solver_glue(ctx):
             rest = yes[1:]
         return txt, g, sorted(u(x) for x in rest), sorted(u(x) for x in no)
     out = {}
+    store_flags = []
     for name, cg in (("_gmres_single_op_imp", False), ("cg", True), ("_gmres_block_op_imp", False)):
         fn = it.functions[name]
         txt, g, strong, weak = wrapper(fn, "A", cg)
@@ -1071,13 +1072,22 @@ def solver_glue(ctx):
         call = [t for t in txt if t.startswith("x, info = scipy.sparse.linalg.")]
         if cg:
             wantc = "x, info = scipy.sparse.linalg.cg(A_op, b_vec, rtol=tol, maxiter=maxiter, callback=callback)"
-            cb = "callback = IterationCounter(return_residuals, True, A_op, b_vec)"
+            rest_args = ["True", "A_op", "b_vec"]
         else:
             wantc = ("x, info = scipy.sparse.linalg.gmres(A_op, b_vec, rtol=tol, restart=restart, maxiter=maxiter, "
                      "callback=callback)")
-            cb = "callback = IterationCounter(return_residuals)"
-        if call != [wantc] or cb not in txt:
-            it.fail(fn, "SciPy call or callback construction changed in " + name)
+            rest_args = []
+        # which flag of the wrapper decides whether the callback stores residuals: emitted (theorem wrapper_flags), the
+        # remaining constructor arguments (is_cg, operator, rhs) are checked literally
+        cbs = [x for x in body_of(fn) if isinstance(x, ast.Assign) and u(x.targets[0]) == "callback"]
+        if not (len(cbs) == 1 and isinstance(cbs[0].value, ast.Call) and u(cbs[0].value.func) == "IterationCounter"
+                and not cbs[0].value.keywords and cbs[0].value.args and isinstance(cbs[0].value.args[0], ast.Name)
+                and cbs[0].value.args[0].id in [a.arg for a in fn.args.args]
+                and [u(a) for a in cbs[0].value.args[1:]] == rest_args):
+            it.fail(fn, "callback construction changed in " + name)
+        store_flags.append((name, cbs[0].value.args[0].id))
+        if call != [wantc]:
+            it.fail(fn, "SciPy call changed in " + name)
         tail = txt[-4:]
         wt = ["if return_residuals and return_iteration_count:\n    return (res_fun, info, callback.residuals, callback.count)",
               "if return_residuals:\n    return (res_fun, info, callback.residuals)",
@@ -1105,9 +1115,13 @@ def solver_glue(ctx):
     if any("self._residuals" in u(x) or "self._count" in u(x) for x in br.orelse if not isinstance(x, ast.Expr)):
         it.fail(br, "else branch touches the state")
     init = [u(x) for x in body_of(it.method("IterationCounter", "__init__"))]
-    for need in ("self._count = 0", "self._residuals = []"):
+    for need in ("self._count = 0", "self._residuals = []", "self._store_residuals = store_residuals",
+                 "self._iteration_is_cg = iteration_is_cg", "self._operator = operator", "self._rhs = rhs"):
         if need not in init:
             it.fail(it.method("IterationCounter", "__init__"), "initial state changed")
+    if [a.arg for a in it.method("IterationCounter", "__init__").args.args] != ["self", "store_residuals", "iteration_is_cg",
+                                                                              "operator", "rhs"]:
+        it.fail(it.method("IterationCounter", "__init__"), "IterationCounter constructor signature changed")
     props = {n.name: u(single_return(it, n)) for n in it.cls("IterationCounter").body
              if isinstance(n, ast.FunctionDef) and is_property(n)}
     if props != {"count": "self._count", "residuals": "self._residuals"}:
@@ -1131,7 +1145,10 @@ def solver_glue(ctx):
              '  it_blocked_strong_rhs := "coefficients"; it_blocked_weak_rhs := "dual_to_range_spaces";',
              '  it_blocked_result_strong := "%s"; it_blocked_result_weak := "%s" |}.' % bres,
              "Definition IC : ic_glue := {| ic_incr := 1; ic_cg_res := ISub IRhs IOpX; ic_other_res := IX; ic_norm := true;",
-             "  ic_else_pure := true |}.", ""]
+             "  ic_else_pure := true |}.",
+             "(* wrapper, the wrapper's parameter handed to IterationCounter as store_residuals *)",
+             "Definition store_flags : list (string * string) := [%s]." % "; ".join('("%s", "%s")' % x for x in store_flags), ""]
     ctx.write_gen("SolverGlue.v", "\n".join(lines))
     info["guard"] = out["cg"]
+    info["store_flags"] = store_flags
     return info
